@@ -94,6 +94,8 @@ var (
 	Writes int
 	// OnWrite, when set, is called after every completed physical write (index is 1-based).
 	OnWrite func(index int, kind string)
+	// BootOnWrite, when set, becomes OnWrite for the writes of the next Boot itself (recovery writes).
+	BootOnWrite func(index int, kind string)
 	// FailWrite, when set, may refuse a physical write before it happens.
 	FailWrite func(kind string) error
 	current   *Node
@@ -171,7 +173,8 @@ func Boot(disk *simdisk.Disk, forks Forks, withHandlers bool) *Node {
 	}
 	hookMu.Lock()
 	Writes = 0
-	OnWrite = nil
+	OnWrite = BootOnWrite
+	BootOnWrite = nil
 	hookMu.Unlock()
 	FailWrite = nil
 
